@@ -2,6 +2,7 @@ package keeper
 
 import (
 	saodid "github.com/SaoNetwork/sao-did"
+	saodidparser "github.com/SaoNetwork/sao-did/parser"
 	sid "github.com/SaoNetwork/sao-did/sid"
 	saodidtypes "github.com/SaoNetwork/sao-did/types"
 	saodidutil "github.com/SaoNetwork/sao-did/util"
@@ -22,6 +23,16 @@ func (k Keeper) verifySignature(ctx sdk.Context, owner string, proposal Proposal
 	}
 
 	var querySidDocument = func(versionId string) (*sid.SidDocument, error) {
+		// the key document named by the signature must be the current version of the owner's own
+		// identity: not a document of another identity, not a version rotated out by an update
+		ownerDid, err := saodidparser.Parse(owner)
+		if err != nil {
+			return nil, nil
+		}
+		versions, found := k.did.GetSidDocumentVersion(ctx, ownerDid.ID)
+		if !found || len(versions.VersionList) == 0 || versions.VersionList[len(versions.VersionList)-1] != versionId {
+			return nil, nil
+		}
 		doc, found := k.did.GetSidDocument(ctx, versionId)
 		if found {
 			var keys = make([]*sid.PubKey, 0)
